@@ -88,6 +88,7 @@ structure Hist (s : State) : Prop where
   h8 : ∀ q, q < s.n → (s.procs q).st = .busyWP →
           0 < (s.procs q).wl ∨ 0 < (s.procs q).opn ∨ (s.gh q).curR < (s.procs q).mr
   s1 : s.n ≤ 1 → transit s = 0
+  nr : s.started = true → ∀ q, q < s.n → cls (s.procs q).st ≠ 0
 
 structure Fin (s : State) : Prop where
   q : (s.procs 0).st = .term →
@@ -128,6 +129,21 @@ theorem Struct.c_false_of_wfc {s : State} (h : Struct s) {q : Nat} (hq : q < s.n
 theorem Struct.U_zero_of_wfc {s : State} (h : Struct s) {q : Nat} (hq : q < s.n) (h0 : 0 < q)
     (hc : cls (s.procs q).st ≤ 1) : U s q = 0 :=
   ((edge_cases (h.edge q h0 hq)).1 hc).2.1
+
+/-- a process that has contributed to the wave in progress waits for its parent -/
+theorem Struct.cls_of_c {s : State} (h : Struct s) {q : Nat} (hq : q < s.n)
+    (hc : (s.gh q).c = true) : cls (s.procs q).st = 2 := by
+  by_cases h0 : q = 0
+  · subst h0; rw [h.root.2] at hc; cases hc
+  · have e := h.edge q (by omega) hq
+    unfold Edge at e; rw [hc] at e
+    generalize cls (s.procs q).st = a at *
+    generalize cls (s.procs (parent q)).st = b at *
+    generalize b2n (s.gh (parent q)).c = d at *
+    generalize U s q = u at *
+    generalize D s q false = d0 at *
+    generalize D s q true = d1 at *
+    unfold edgeOK at e; simp at e; omega
 
 /-- the root never sends an UP message -/
 theorem Struct.U_root {s : State} (h : Struct s) : U s 0 = 0 := by
